@@ -627,3 +627,22 @@ def wireTxnMetricsStep (t : Tokens) (impl : Option String) : StepOut :=
       | some line => if line == model then [] else
           [s!"C15 wire: the metrics of a Transaction message decode to `{line}`; with each metric's own forced flag the table of capacity {max} holds `{model}`"]
       | none => [] }
+
+
+/-- engine `wire`, op `txnfields <transaction spec>`: every optional field of a Transaction message, alone and in every
+combination, arrives as the agent wrote it (C15): counts per field, whether a package list arrived, how many labels -/
+def wireTxnFieldsStep (t : Tokens) (impl : Option String) : StepOut :=
+  let txn := parseTxn t
+  let slowIds := (txn.slows.map (·.id)).eraseDups
+  let labels : Nat := match kvGet t "labels" with
+    | some s => if s == "-" || s == "" then 0 else
+        let items := (s.splitOn ",").filterMap (fun e => match e.splitOn ":" with
+          | [a, b] => some (a, b)
+          | _ => none)
+        if items.any (fun x => x.1 == "" || x.2 == "") then 0 else items.length
+    | none => 0
+  let model := s!"ev={if txn.event.isSome then 1 else 0} ce={txn.customs.length} se={txn.spans.length} le={txn.logs.length} ee={txn.errEvs.length} err={min txn.errors.length Gen.Limits.MaxErrors} sql={min slowIds.length Gen.Limits.MaxSlowSQLs} pkgs={if txn.pkgs.isSome then 1 else 0} labels={labels}"
+  { model := model, specFails := match impl with
+      | some line => if line == model then [] else
+          [s!"C15 wire: a Transaction message carrying `{model}` is decoded as `{line}`: a field is lost or misread in this combination"]
+      | none => [] }
